@@ -68,7 +68,12 @@ func appendIfNotIn(ids []*Identity, chk *Identity) []*Identity {
 // addChildren adds identity r and all of its children to ids
 // deterministically.
 func addChildren(r *Identity, ids []*Identity) []*Identity {
-	ids = appendIfNotIn(ids, r)
+	n := len(ids)
+	if ids = appendIfNotIn(ids, r); len(ids) == n {
+		// r, and thus its children, were already added. Not descending
+		// again also guarantees termination on circular derivations.
+		return ids
+	}
 
 	// Iterate through the values of r.
 	for _, ch := range r.Values {
@@ -181,6 +186,13 @@ func (ms *Modules) resolveIdentities() []error {
 		newValues := []*Identity{}
 		for _, j := range i.Identity.Values {
 			newValues = addChildren(j, newValues)
+		}
+		for _, j := range newValues {
+			// An identity must not be derived from itself.
+			if j == i.Identity {
+				errs = append(errs, fmt.Errorf("%s: identity %s: circular base dependency", Source(i.Identity), i.Identity.Name))
+				break
+			}
 		}
 		sort.SliceStable(newValues, func(j, k int) bool {
 			return newValues[j].Name < newValues[k].Name
